@@ -24,7 +24,7 @@ RULE = (
 )
 COMPONENTS = c01.COMPONENTS
 ASSUMPTIONS = c01.ASSUMPTIONS
-PROBES = ["overlap", "overlap_separated", "overlap_long_first", "cycle", "cycle_len>=3", "cycle_through_keep_or_ho",
+PROBES = ["late_accept", "overlap", "overlap_separated", "overlap_long_first", "cycle", "cycle_len>=3", "cycle_through_keep_or_ho",
           "cycle_through_method",
           "evalineval", "evalineval_nested", "ill_on_populated_store", "twin_ops_compared"]
 
@@ -50,6 +50,23 @@ def gen_case(streams, tier, avoid):
         pos = f.randrange(0, len(case["ops"]) + 1)
         case["ops"].insert(pos, {"op": "illeval", "entry": entry, "style": f.choice(["eval", "call"]),
                                  "expect": expect, "kind": kind})
+    if f.random() < 0.25 and not any(op.get("proc") for op in case["ops"]):
+        # the package is accepted only after the process has started - and sometimes after it has already looked at
+        # (dry run, analysis only) the very functions it is going to reject
+        case["late_accept"] = True
+        ops, fresh = [], True
+        for op in case["ops"]:
+            if op["op"] == "restart":
+                fresh = True
+                ops.append(op)
+                continue
+            if fresh and op["op"] in ("eval", "illeval", "mutate", "chdir", "load"):
+                if op["op"] in ("eval", "illeval") and f.random() < 0.7:
+                    ops.append({"op": "eval", "entry": op["entry"], "style": "eval", "opts": {"dds_stages": ["analysis"]}})
+                ops.append({"op": "accept"})
+                fresh = False
+            ops.append(op)
+        case["ops"] = ops
     return case
 
 
